@@ -13,6 +13,7 @@ import (
 	"github.com/postalsys/muti-metroo/internal/crypto"
 	"github.com/postalsys/muti-metroo/internal/identity"
 	"github.com/postalsys/muti-metroo/internal/protocol"
+	"github.com/postalsys/muti-metroo/internal/verifhook"
 )
 
 // StreamState represents the state of a stream.
@@ -575,6 +576,7 @@ func (m *Manager) HandleStreamData(streamID uint64, flags uint8, data []byte) er
 	if flags&protocol.FlagFinWrite != 0 {
 		stream.HandleRemoteFinWrite()
 	}
+	verifhook.Point("stream.fin_before_push", streamID, flags, len(data))
 
 	if len(data) > 0 {
 		if err := stream.PushData(data); err != nil {
